@@ -336,6 +336,19 @@ pub fn run_scenarios(path: &str, out_prefix: &str, server_bin: &str, workdir: &s
                 writeln!(proc_out, "{}", json!({"ev": "hc", "conns": k, "connected": connected, "ok200": ok200, "time_requests": ex.len(), "time_answered": answered})).unwrap();
             }
         }
+        // ---- fault: the process runs out of file descriptors (RLIMIT_NOFILE lowered to what it has open now), then
+        //      TCP connections arrive at the health-check port (accept fails with EMFILE)
+        if let Some(k) = sc["fd_exhaust_then_connect"].as_u64() {
+            if sp.alive() {
+                let open_now = std::fs::read_dir(format!("/proc/{}/fd", sp.pid())).map(|d| d.count()).unwrap_or(64) as u64;
+                let lim = libc::rlimit { rlim_cur: open_now, rlim_max: open_now };
+                unsafe { libc::prlimit(sp.pid() as i32, libc::RLIMIT_NOFILE, &lim, std::ptr::null_mut()); }
+                if let Some(hp) = sp.hc_port {
+                    let _held: Vec<Option<TcpStream>> = (0..k).map(|_| TcpStream::connect_timeout(&format!("127.0.0.1:{}", hp).parse().unwrap(), Duration::from_millis(300)).ok()).collect();
+                    std::thread::sleep(Duration::from_millis(300));
+                }
+            }
+        }
         // ---- closed-loop load
         let stop = Arc::new(AtomicBool::new(false));
         let progress = Arc::new(std::sync::atomic::AtomicU64::new(0));
